@@ -18,7 +18,7 @@ from yamlpath.commands import yaml_paths
 from yamlpath.enums import PathSeparators
 from yamlpath.eyaml import EYAMLProcessor
 
-from vkit import core, corpus, qrun, refmatch
+from vkit import core, corpus, paths, qrun, refmatch
 from vkit.corpus import anchor_of, is_list, is_map, is_scalar
 
 ID = "C07"
@@ -67,10 +67,14 @@ def plan(tier):
         ("m", (("a.b", "aa"), ("k c", ("m", (("x/y", "ab"),))))),
         ("m", (("ka", ("m", (("ka", ("m", (("ka", "aa"),))),))),)),
         ("m", (("ka", ("l", ())), ("kb", ("m", ())), ("kc", "aa"))),
+        # values and keys the search term can only name with escapes
+        ("m", (("ka", "a a"), ("k b", ("l", ("a a", "a]", "aa"))),
+               ("kc", ("m", (("a a", "it's"), ("kd", "a a b")))))),
+        ("l", ("a a", ("m", (("a a", "x"), ("kb", "a\\b"))), "it's")),
     ]
     EXPRS = []
-    terms = ("aa", "a", "1000", "15", "k") if tier != "quick" else (
-        "aa", "a", "1000", "k")
+    terms = ("aa", "a", "1000", "15", "k", "a a", "a]", "it's", "a\\b") \
+        if tier != "quick" else ("aa", "a", "1000", "k", "a a", "it's")
     for op in ("=", "^", "$", "%", "<", ">", "<=", ">=", "=~"):
         for term in terms:
             for inv in (False, True):
@@ -191,8 +195,11 @@ def expected(doc, expr, mode):
 def run_search(doc, expr, mode):
     op, term, inv = expr
     what, ka, va, expand, sep = mode
+    # the term is written as the path syntax demands: white-space, brackets
+    # and quotes backslash-escaped (a regular expression is taken verbatim)
     expression = "%s%s%s" % ("!" if inv else "", op,
-                             "/%s/" % term if op == "=~" else term)
+                             "/%s/" % term if op == "=~"
+                             else paths.esc_bs(term, "", ""))
     exterm = yaml_paths.get_search_term(corpus.LOG, expression)
     if exterm is None:
         return expression, None
